@@ -112,8 +112,9 @@ class Replayer:
             if b:
                 if it.block.number_in_file != b:
                     raise Mismatch("locate", "locate(%d) gave block %d, model %d" % (big(t), it.block.number_in_file, b))
-                self.cmp_block(it, bl[b], "locate")
-                self.cmp_stream(it, st[bl[b]["s"] - 1], "locate")
+                if b in bl:          # (volume plans list sampled Blocks only)
+                    self.cmp_block(it, bl[b], "locate")
+                    self.cmp_stream(it, st[bl[b]["s"] - 1], "locate")
 
     # ---- one plan
     def run_plan(self, plan):
@@ -276,9 +277,9 @@ def main():
                 out.write(json.dumps(dict(begin=n)) + "\n"); out.flush()
                 r = rp.run_plan(plan)
                 out.write(json.dumps(dict(done=n, res=r)) + "\n"); out.flush()
-    elif mode == "fileinfo":
+    elif mode in ("fi_build", "fi_run"):
         from harness.pydrv import c13_fileinfo
-        c13_fileinfo.worker(lz, src, dst)
+        c13_fileinfo.worker(lz, src, dst, mode)
     else:
         raise SystemExit("bad mode")
 
